@@ -4,10 +4,12 @@ import tracegen
 import framework as fw
 import cp_common as cp
 import pC08
+import translate
 
 ID = "C09"
 COQ_IMPORTS = ["From HTA.lib Require Import Dag.", "From HTA.model Require Import C08_Model."]
 SOURCES = cp.SOURCES
+TRANSLATE = [translate.gen_path_sets]
 INPUT_CONTRACT = True        # the loaded frame is re-checked against the file (framework.input_contract)
 N_CASES = {"quick": 250, "thorough": 4000}
 RULE = ("the graphs critical_path_analysis builds for generated causally consistent traces and windows (as C08), and for each graph two re-weighted copies "
@@ -158,7 +160,8 @@ LEVEL_TEXT = ("Proof: Dag.path_bound / optimum_bound (a potential function valid
               "C09_check_sound (a node list accepted by check_C09 is a path of the graph and no path weighs more), C09_le_makespan, C09_makespan_guaranteed (on a graph "
               "accepted by span_okb no path at all exceeds the makespan), C08_acyclic. For every graph the "
               "analysis builds, and for re-weighted copies, the potential is computed (dynamic programme) and checked in Coq, and the reported path, edge set and event "
-              "set are judged by the verified checker.")
+              "set are judged by the verified checker."
+              " C09_path_sets_follow_source: how the reported sets are built (events rebuilt, edges reset and refilled from consecutive nodes) is read from CPGraph.critical_path on every run.")
 LEVEL_NOTE = ("networkx is trusted only through the checked result: whichever of several maximum-weight paths it returns is accepted. The graph itself comes from the "
               "implementation (C08 judges it).")
 TECHNIQUE = "Coq proof (LP-duality style certificate: potentials bound all paths) + certificate computed and checked by vm_compute on every real graph"
